@@ -41,8 +41,17 @@ def CfgE.failed (ce : CfgE) (c' : Cfg) (dr : List Req := []) : CfgE :=
 /-- `writeInternal`'s batch fails: `Offer` returns the error, nothing changed -/
 def doOfferErr (ce : CfgE) (m : Mem) (r : Req) : CfgE :=
   let c := ce.base
-  if m.size + c.k.sizeof r > c.k.cap then { ce with base := doOffer c m r }   -- rejected before any storage call
+  if m.size + c.k.sizeof r > c.k.cap then { ce with base := doOffer c m r }   -- rejected / blocked before any storage call
   else ce.failed { c with res := .err }
+
+/-- a woken blocked offer whose `writeInternal` batch fails: its `Offer` returns the error -/
+def doWakeErr (ce : CfgE) (m : Mem) : CfgE :=
+  let c := ce.base
+  match m.waiting with
+  | [] => ce
+  | r :: rest =>
+    if m.size + c.k.sizeof r > c.k.cap then { ce with base := doWake c m }
+    else ce.failed { c with ph := .live { m with waiting := rest } .idle, res := .err }
 
 /-- `getNextItem`'s batch fails.  The code has already advanced `readIndex` and appended the index ("so even if errors
     happen below, it always iterates"), now calls `itemDispatchingFinish(index)` — which removes the index from the
@@ -131,6 +140,10 @@ def fireErr (ce : CfgE) : Label → CfgE
   | .shutdown => match ce.base.ph with
     | .live m .idle => doShutdownErr ce m
     | _ => ce
+  | .wake => match ce.base.ph with
+    | .live m .idle => doWakeErr ce m
+    | _ => ce
+  | .cancel j => { ce with base := fire ce.base (.cancel j) }
 
 def fireE (ce : CfgE) : LabelE → CfgE
   | .fail b => { ce with failNext := b }
